@@ -18,6 +18,12 @@ type propDef struct {
 
 var props = map[string]*propDef{}
 
+// properties whose subject includes producing the segment itself
+// (for C08, C13, C16, C18 a segment that cannot be produced at all is not their subject: the
+// case is skipped there; every other property's statement covers merged / loaded segments)
+var constructionProps = map[string]bool{"C01": true, "C02": true, "C03": true, "C04": true, "C05": true, "C06": true, "C07": true,
+	"C09": true, "C10": true, "C11": true, "C15": true, "C17": true}
+
 // properties whose cases are also answered by the executable Lean model of the code
 var modelProps = map[string]bool{"C05": true, "C13": true, "C06": true, "C07": true, "C08": true, "C18": true}
 
@@ -162,6 +168,13 @@ func (e *Engine) runSpecDiff(cases []*Case, reuse bool) []Violation {
 			}
 		}
 		if d := firstDiff(outs[i].Lines, spec[c.ID]); d >= 0 {
+			if !constructionProps[e.prop] && d < len(outs[i].Lines) && strings.Contains(outs[i].Lines[d], " segerr:") {
+				// a segment of the case could not be built / merged / loaded at all: that is the
+				// subject of C01-C04 (and C10, C11, C17), not of this property; nothing can be
+				// observed here, so the case is skipped, not reported
+				e.count("skipped:segment-construction-failed", 1)
+				continue
+			}
 			v := Violation{Prop: e.prop, CaseID: c.ID, Kind: "spec-mismatch", Case: c, QueryIx: d}
 			if shrunk < 2 {
 				shrunk++
